@@ -9,7 +9,7 @@
 
   `Printable o v` (RT) is the exact domain: integers in range, object member names distinct, every float
   satisfies `FloatRT` (its shortest rendering parses back — proved in `F64RoundTrip.display_parse` whenever a
-  rendering is found; totality of the 17-digit search is the classical hypothesis H17), and — the known
+  rendering is found; totality of the 17-digit search was the classical hypothesis H17 and is now proved: `h17_holds`), and — the known
   finding F3 — without `--utf8-strings` no character above U+FFFF (`CharOK`): `printString` writes such a
   character as `\u` + FIVE hex digits, which reads back as a different string (witness proved below).
 -/
@@ -17,6 +17,8 @@ import Jawk.Lemmas.Fixpoint
 import Jawk.Lemmas.RoundTrip
 import Jawk.Lemmas.F64RoundTrip
 import Jawk.Lemmas.ParseSer
+import Jawk.Lemmas.H17
+import Jawk.Lemmas.PrintSer
 import Jawk.Props.Tables
 namespace Jawk.C02
 open Jawk RT
@@ -64,12 +66,13 @@ theorem float_hypothesis_discharged {f : F64} {s : Bool} {m : Nat} {e : Int} {t 
     FloatRT f := Ser.floatRT_of_display hf hm hstay ht
 
 /-- closing the loop (the fixpoint at the value level): whatever was read from ANY conforming text is printable,
-and its printed text (any style, `--utf8-strings`) is read back as the same value — under H17 only -/
-theorem reread_what_was_read (h17 : Ser.H17) (o : JsonOpts) (ho : o.utf8Strings = true) {v : JV} {bs : List Byte}
+and its printed text (any style, `--utf8-strings`) is read back as the same value.  (H17, the success of the
+17-digit search, used to be a hypothesis here; it is now the theorem `Ser.h17`, see `h17_holds`.) -/
+theorem reread_what_was_read (o : JsonOpts) (ho : o.utf8Strings = true) {v : JV} {bs : List Byte}
     (h : Ser.Ser v bs) (rest : List Byte) (hd : Delim v rest) (r : Reader)
     (hr : Ready r (utf8 (printJson o v) ++ rest)) (fuel : Nat) (hf : fuelBound o v ≤ fuel) :
     ∃ r', nextValue fuel r = (.ok (some (norm v)), r') ∧ Ready r' rest :=
-  Ser.print_parse_of_ser h17 o ho h rest hd r hr fuel hf
+  Ser.print_parse_of_ser Ser.h17 o ho h rest hd r hr fuel hf
 
 /-- F3 (known finding), proved on the model: without `--utf8-strings` U+1F603 is written as `\u1f603` -/
 theorem astral_escape_has_five_digits :
@@ -94,21 +97,57 @@ theorem run_output_only (orc : Oracles) (jo : Option JsonOpts) (sep : Str) (sour
 
 /-- MAIN: feeding jawk's output back into jawk with the same options reproduces it byte for byte — for EVERY
 input (any bytes, malformed regions included, any number of sources), every style, every non-empty white-space
-row separator.  Assumptions: H17 and `--utf8-strings` (without it an astral character is the finding F3; the
+row separator.  Assumption: `--utf8-strings` (without it an astral character is the finding F3; the
 counter-example is an `example` in the helper file, as is a non-white-space separator) -/
-theorem fixpoint (h17 : Ser.H17) (orc : Oracles) (o : JsonOpts) (ho : o.utf8Strings = true) (sep : Str)
+theorem fixpoint (orc : Oracles) (o : JsonOpts) (ho : o.utf8Strings = true) (sep : Str)
     (hsep : Fix.WsSep sep) (hne : sep ≠ []) (sources : List Source) (hcl : RunSpec.CleanIO sources) :
     (run orc (Fix.outCfg (some o) sep)
         [⟨none, cleanInput (run orc (Fix.outCfg (some o) sep) sources {} {}).stdout⟩] {} {}).stdout
       = (run orc (Fix.outCfg (some o) sep) sources {} {}).stdout :=
-  Fix.fixpoint_all h17 orc o ho sep hsep hne sources hcl
+  Fix.fixpoint_all Ser.h17 orc o ho sep hsep hne sources hcl
 
-/-- the same without H17 and without `--utf8-strings`, for inputs whose values are printable (`Printable`) -/
+/-- the same without `--utf8-strings`, for inputs whose values are printable (`Printable`) -/
 theorem fixpoint_printable (orc : Oracles) (jo : Option JsonOpts) (sep : Str) (hsep : Fix.WsSep sep) (hne : sep ≠ [])
     (sources : List Source) (hcl : RunSpec.CleanIO sources)
     (hvals : ∀ ctx ∈ RunSpec.ctxsOfSources (Fix.outCfg jo sep) sources 0, Printable (jo.getD {}) ctx.input) :
     (run orc (Fix.outCfg jo sep) [⟨none, cleanInput (run orc (Fix.outCfg jo sep) sources {} {}).stdout⟩] {} {}).stdout
       = (run orc (Fix.outCfg jo sep) sources {} {}).stdout :=
   Fix.fixpoint_sources orc jo sep hsep hne sources hcl hvals
+
+/-! ### H17 is a theorem; the printed text is conforming by an independent grammar -/
+
+/-- the digit search of `Display for f64` (1 … 17 significant digits) succeeds on every finite double: the
+classical fact 10^16 > 2^53, proved over the model (`Jawk/Lemmas/H17.lean`: `decExp` is exact — one kernel
+evaluation over all 2100 binary exponents —, nearest rounding, the grid argument at 17 digits) -/
+theorem h17_holds : Ser.H17 := Ser.h17
+
+theorem display_total (f : F64) (hc : f.Canonical) (hf : f.isFinite = true) : (F64.toDisplay? f).isSome = true :=
+  F64.toDisplay?_isSome f hc hf
+
+/-- every row is a WELL-FORMED RFC 8259 text of the value being output, by the independent grammar
+`Ser` of `Jawk/Spec/Json.lean` (which mentions neither jawk's parser nor its printer) — in every style and both
+string modes; `norm` only turns a `neg i` with `i ≥ 0`, which prints without sign, into `pos i` -/
+theorem printed_row_conforming (o : JsonOpts) (v : JV) (hv : Printable o v) :
+    Ser.Ser (norm v) (utf8 (printJson o v)) :=
+  PrintSer.printJson_ser_printable o v hv
+
+/-- the three styles are conforming texts of the SAME value (they differ in insignificant white space only) -/
+theorem styles_same_value (o : JsonOpts) (v : JV) (hv : Ser.Parsed o v) :
+    Ser.Ser (norm v) (utf8 (printJson { o with style := .oneLine } v)) ∧
+    Ser.Ser (norm v) (utf8 (printJson { o with style := .consise } v)) ∧
+    Ser.Ser (norm v) (utf8 (printJson { o with style := .pretty } v)) :=
+  PrintSer.printJson_ser_three o v hv
+
+/-- the round trip THROUGH the grammar: a printed row, preceded by white space, is read back as the value -/
+theorem printed_row_reread (o : JsonOpts) (v : JV) (hv : Ser.Parsed o v) (rest : List Byte)
+    (hd : Ser.Delimited (norm v) rest) (ws : List Byte) (hws : Ser.Ws ws) (r : Reader)
+    (hr : Ready r (ws ++ utf8 (printJson o v) ++ rest)) :
+    ∃ r', r.nextJson = (.ok (some (norm v)), r') ∧ Ready r' rest :=
+  PrintSer.nextJson_printed o v hv rest hd ws hws r hr
+
+/-- F3 through the grammar: in ASCII mode U+1F600 is printed as a conforming text — of a DIFFERENT string -/
+theorem astral_is_conforming_but_different :
+    Ser.Ser (.str [Char.ofNat 0x1F60, '0']) (utf8 (printJson {} (.str [Char.ofNat 0x1F600]))) :=
+  PrintSer.astral_ascii_differs
 
 end Jawk.C02
